@@ -24,6 +24,8 @@ type Ent struct {
 	Roles []string
 	Note  string
 	Ref   *string
+	// Serial is an int64 field (unique index over a non-string value when StoreCfg.UniqueSerial is set)
+	Serial int64
 	// LinkField / LinkIDs: when LinkField is set, PersistEntity hands LinkIDs to PersistContext.SetLinkedIds
 	// (the way an application persists a many-to-many field together with the entity). Never loaded back.
 	LinkField string
@@ -38,12 +40,13 @@ type Kid struct {
 }
 
 const (
-	FName  = "name"
-	FAlias = "alias"
-	FRoles = "roles"
-	FNote  = "note"
-	FRef   = "ref"
-	FExtra = "extra"
+	FName   = "name"
+	FAlias  = "alias"
+	FRoles  = "roles"
+	FNote   = "note"
+	FRef    = "ref"
+	FExtra  = "extra"
+	FSerial = "serial"
 )
 
 type entStrategy struct {
@@ -69,6 +72,7 @@ func (s entStrategy) FillEntity(e *Ent, b *boltz.TypedBucket) {
 	e.Roles = b.GetStringList(FRoles)
 	e.Note = b.GetStringWithDefault(s.k(FNote), "")
 	e.Ref = b.GetString(s.k(FRef))
+	e.Serial = b.GetInt64WithDefault(FSerial, 0)
 }
 func (s entStrategy) PersistEntity(e *Ent, ctx *boltz.PersistContext) {
 	e.SetBaseValues(ctx)
@@ -77,6 +81,7 @@ func (s entStrategy) PersistEntity(e *Ent, ctx *boltz.PersistContext) {
 	ctx.SetStringList(FRoles, e.Roles)
 	ctx.SetString(s.k(FNote), e.Note)
 	ctx.SetStringP(s.k(FRef), e.Ref)
+	ctx.SetInt64(FSerial, e.Serial)
 	if e.LinkField != "" && ctx.Store.GetLinkCollection(e.LinkField) != nil {
 		ctx.SetLinkedIds(e.LinkField, e.LinkIDs)
 	}
@@ -120,6 +125,8 @@ type StoreCfg struct {
 	RefTo       string `json:"refTo,omitempty"`       // store the ref field points at
 	RefWiring   string `json:"refWiring,omitempty"`
 	System      bool   `json:"system,omitempty"` // system entity enforcement constraint
+	// UniqueSerial: non-nullable unique index over the int64 field serial (index keys are not strings)
+	UniqueSerial bool `json:"uniqueSerial,omitempty"`
 	// Keyed: symbols are registered with AddSymbolWithKey / AddFkSymbolWithKey, the persisted key differs from the symbol name
 	Keyed bool `json:"keyed,omitempty"`
 }
@@ -213,6 +220,10 @@ func NewWorld(cfg WorldCfg) (*World, error) {
 		}
 		if sc.UniqueAlias {
 			w.Unique[sc.Name+"."+FAlias] = st.AddNullableUniqueIndex(aliasSym)
+		}
+		serialSym := st.AddSymbol(FSerial, ast.NodeTypeInt64)
+		if sc.UniqueSerial {
+			w.Unique[sc.Name+"."+FSerial] = st.AddUniqueIndex(serialSym)
 		}
 		if sc.RolesIndex {
 			w.SetIdx[sc.Name+"."+FRoles] = st.AddSetIndex(rolesSym)
@@ -388,6 +399,7 @@ type EntSpec struct {
 	Roles    []string `json:"roles,omitempty"`
 	Note     string   `json:"note,omitempty"`
 	Ref      *string  `json:"ref,omitempty"`
+	Serial   int64    `json:"serial,omitempty"`
 	IsSystem bool     `json:"isSystem,omitempty"`
 	Migrate  bool     `json:"migrate,omitempty"` // BaseExtEntity.Migrate: keep the payload's timestamps on create
 	Extra    string   `json:"extra,omitempty"`   // child stores only
@@ -398,7 +410,7 @@ type EntSpec struct {
 }
 
 func (s EntSpec) ToEnt(typ, id string) *Ent {
-	e := &Ent{Type: typ, Name: s.Name, Alias: s.Alias, Roles: append([]string(nil), s.Roles...), Note: s.Note, Ref: s.Ref}
+	e := &Ent{Type: typ, Name: s.Name, Alias: s.Alias, Roles: append([]string(nil), s.Roles...), Note: s.Note, Ref: s.Ref, Serial: s.Serial}
 	e.Id = id
 	e.IsSystem = s.IsSystem
 	e.Migrate = s.Migrate
@@ -416,6 +428,7 @@ type MEnt struct {
 	Roles    []string // sorted, de-duplicated
 	Note     string
 	Ref      *string
+	Serial   int64
 	IsSystem bool
 	TagV     *string
 	Kid      map[string]string // child store name -> extra (presence = has child data there)
@@ -588,6 +601,14 @@ func (m *Model) checkWrite(store, id string, old, next *MEnt, system bool) []str
 			causes = append(causes, ErrStorage)
 		}
 	}
+	if sc.UniqueSerial && (old == nil || old.Serial != next.Serial) {
+		for oid, e := range m.Ents[store] {
+			if oid != id && e.Serial == next.Serial {
+				causes = append(causes, ErrDuplicate)
+				break
+			}
+		}
+	}
 	if sc.UniqueAlias {
 		oldA, newA := "", ""
 		if old != nil && old.Alias != nil {
@@ -641,7 +662,7 @@ func (m *Model) checkWrite(store, id string, old, next *MEnt, system bool) []str
 }
 
 func specToMEnt(s EntSpec) *MEnt {
-	return &MEnt{Name: s.Name, Alias: s.Alias, Roles: SortedSet(s.Roles), Note: s.Note, Ref: s.Ref, IsSystem: s.IsSystem, TagV: s.TagV, Kid: map[string]string{}}
+	return &MEnt{Name: s.Name, Alias: s.Alias, Roles: SortedSet(s.Roles), Note: s.Note, Ref: s.Ref, Serial: s.Serial, IsSystem: s.IsSystem, TagV: s.TagV, Kid: map[string]string{}}
 }
 
 // Create predicts and applies a create through store (a top-level store name or a child store name).
@@ -775,6 +796,9 @@ func (m *Model) Update(store, id string, s EntSpec, fields []string, system bool
 	}
 	if sel(FRef) {
 		next.Ref = s.Ref
+	}
+	if sel(FSerial) {
+		next.Serial = s.Serial
 	}
 	if sel(boltz.FieldTags) {
 		next.TagV = s.TagV
